@@ -327,6 +327,10 @@ class Peer:
         self._stop('removed')
         self.stop()
 
+    def removed(self) -> bool:
+        # stop() was called: the peer does not restart and goes with the end of its task
+        return not self._restart
+
     def shutdown(self) -> None:
         self._stop('shutting down')
         self.stop()
